@@ -7,32 +7,32 @@ From JP Require Import Base Ast Eval ValueModel Spec Known WellFormed Regex Entr
 Import ListNotations.
 Local Open Scope nat_scope.
 
+Lemma sel_name_le1 k n : length (sel_name k n) <= 1.
+Proof.
+  unfold sel_name. destruct (decode_name k) as [k'|]; [|cbn [length]; lia].
+  destruct (snd n); cbn [length]; try lia. destruct (assoc k' _); cbn [length]; lia.
+Qed.
+
+Lemma sel_index_le1 i n : length (sel_index i n) <= 1.
+Proof.
+  unfold sel_index. destruct (snd n) as [| | | |a|]; cbn [length]; try lia.
+  destruct (rfc_index _ i) as [j|]; cbn [length]; [|lia].
+  destruct (nth_error a (Z.to_nat j)); cbn [length]; lia.
+Qed.
+
+Lemma flat_map_le1 (f : node -> list node) ns :
+  (forall n, length (f n) <= 1) -> length ns <= 1 -> length (flat_map f ns) <= 1.
+Proof.
+  intros Hf Hn. destruct ns as [|n [|n2 ns]]; cbn [flat_map length] in *; [lia| |lia].
+  rewrite app_nil_r. apply Hf.
+Qed.
+
 Section Sing.
   Variable rx_full : str -> str -> bool.
   Variable rx_sub : str -> str -> bool.
   Variable veq : json -> json -> bool.
   Variable major : bool.
   Variable root : json.
-
-  Lemma sel_name_le1 k n : length (sel_name k n) <= 1.
-  Proof.
-    unfold sel_name. destruct (decode_name k) as [k'|]; [|cbn [length]; lia].
-    destruct (snd n); cbn [length]; try lia. destruct (assoc k' _); cbn [length]; lia.
-  Qed.
-
-  Lemma sel_index_le1 i n : length (sel_index i n) <= 1.
-  Proof.
-    unfold sel_index. destruct (snd n) as [| | | |a|]; cbn [length]; try lia.
-    destruct (rfc_index _ i) as [j|]; cbn [length]; [|lia].
-    destruct (nth_error a (Z.to_nat j)); cbn [length]; lia.
-  Qed.
-
-  Lemma flat_map_le1 (f : node -> list node) ns :
-    (forall n, length (f n) <= 1) -> length ns <= 1 -> length (flat_map f ns) <= 1.
-  Proof.
-    intros Hf Hn. destruct ns as [|n [|n2 ns]]; cbn [flat_map length] in *; [lia| |lia].
-    rewrite app_nil_r. apply Hf.
-  Qed.
 
   Lemma singular_segments_le1 l : singular l = true ->
     forall ns, length ns <= 1 -> length (r_segments rx_full rx_sub veq major root l ns) <= 1.
@@ -62,4 +62,28 @@ Proof.
   change (m_query q d = Some ps') in E1. rewrite Hm in E1. injection E1 as <-.
   assert (Hlen : length ps = length (map node_of ps)) by (symmetry; apply map_length).
   rewrite Hlen, E2. unfold cur_query, s_query. apply singular_query_le1. exact Hs.
+Qed.
+
+(* ---- the singular queries that are operands of comparisons (Ast.squery: a list of name / index steps from @ or $) ---- *)
+Lemma sq_steps_le1 l : forall ns, length ns <= 1 ->
+  length (fold_left (fun ns s => flat_map (sq_step s) ns) l ns) <= 1.
+Proof.
+  induction l as [|s l IH]; intros ns Hn; cbn [fold_left]; [exact Hn|]. apply IH.
+  apply flat_map_le1; [|exact Hn]. intros n. destruct s; cbn [sq_step]; [apply sel_index_le1|apply sel_name_le1].
+Qed.
+
+Theorem squery_le1 root q cur : length (r_squery root q cur) <= 1.
+Proof. destruct q; cbn [r_squery]; apply sq_steps_le1; cbn [length]; lia. Qed.
+
+(* the operand denotes Nothing exactly when the query selects no node, and otherwise the value of its only node: the third
+   case of [as_value] (several nodes, read as Nothing) never arises for a comparison operand *)
+Theorem singular_operand rf rs veq major root q cur :
+  (r_squery root q cur = [] /\ r_comparable rf rs veq major root (CSq q) cur = None)
+  \/ (exists n, r_squery root q cur = [n] /\ r_comparable rf rs veq major root (CSq q) cur = Some (snd n)).
+Proof.
+  pose proof (squery_le1 root q cur) as H. cbn [r_comparable]. unfold as_value.
+  destruct (r_squery root q cur) as [|n [|n2 r]]; cbn [length] in H.
+  - left. split; reflexivity.
+  - right. exists n. split; reflexivity.
+  - exfalso. lia.
 Qed.
